@@ -109,16 +109,22 @@ class FaultyRaw(io.RawIOBase):
 
 def make_open(world, real_open=open):
     """Replacement for the builtin open inside the module under test."""
-    def fake_open(path, mode='r', *a, **kw):
+    def fake_open(path, mode='r', buffering=-1, *a, **kw):
         if 'w' in mode or 'a' in mode or '+' in mode:
             name = os.path.basename(path)
             world.op('open', name)
             raw = FaultyRaw(world, name, path)
-            buffered = io.BufferedWriter(raw, buffer_size=kw.get('buffering', 8192) if kw.get('buffering', -1) > 0 else 8192)
+            # the layering the code asked for is kept: an unbuffered binary file IS the raw sink (its write() may be short)
+            if buffering == 0:
+                if 'b' not in mode:
+                    raise ValueError("can't have unbuffered text I/O")
+                return raw
+            buffered = io.BufferedWriter(raw, buffer_size=buffering if buffering > 1 else 8192)
             if 'b' in mode:
                 return buffered
-            return io.TextIOWrapper(buffered, encoding='utf-8')
-        return real_open(path, mode, *a, **kw)
+            return io.TextIOWrapper(buffered, encoding=kw.get('encoding') or 'utf-8', errors=kw.get('errors'),
+                                    newline=kw.get('newline'), line_buffering=(buffering == 1))
+        return real_open(path, mode, buffering, *a, **kw)
     return fake_open
 
 
